@@ -377,6 +377,17 @@ class Body:
             for e in proj[1:]:
                 p = p.extend(_elem_of(e))
             return p
+        # `x?` on an Option: the Continue payload of Try::branch(x) is the payload of x
+        if len(proj) >= 2 and proj[0]["k"] == "downcast" and proj[0].get("variant") == "Continue" and proj[1]["k"] == "field" and _depth < 30 \
+                and not (1 <= local <= self.arg_count) and local != 0:
+            d_ = self.unique_def(local)
+            if d_ is not None and d_[1] == "call" and str(d_[2].get("callee") or "").endswith("Try::branch") and len(d_[2].get("args", [])) == 1 \
+                    and d_[2]["args"][0]["k"] in ("copy", "move") and self.facts.types[d_[2]["args"][0]["place"]["ty"]].get("adt") == "core::option::Option":
+                x_ = d_[2]["args"][0]["place"]
+                inner_ty = self.facts.types[x_["ty"]]["args"][0] if self.facts.types[x_["ty"]].get("args") else proj[1].get("ty")
+                return self.expand({"local": x_["local"], "proj": list(x_["proj"]) + [{"k": "downcast", "variant": "Some", "vidx": 1},
+                                    {"k": "field", "i": 0, "adt": "core::option::Option", "name": "0", "variant": "Some", "ty": inner_ty}] + list(proj[2:]),
+                                    "ty": place.get("ty")}, _depth + 1, alias)
         ar = self._accessor_result(local, _depth, alias) if len(proj) >= 2 and proj[0]["k"] == "downcast" and proj[1]["k"] == "field" else None
         if ar is not None:
             # `(x as Some).0` of `x = self.old_table()`: a reference to the old table inside the pending-resize field
